@@ -39,15 +39,8 @@ class MemmappingExecutor(_ReusablePoolExecutor):
         # to loky as the reducers are objects that changes at each call.
         executor_args = backend_args.copy()
         executor_args.update(env if env else {})
-        # (temp_folder too: a reused executor keeps the temporary folder
-        # manager, hence the temp_folder, it was created with)
         executor_args.update(
-            dict(
-                timeout=timeout,
-                initializer=initializer,
-                initargs=initargs,
-                temp_folder=temp_folder,
-            )
+            dict(timeout=timeout, initializer=initializer, initargs=initargs)
         )
         reuse = _executor_args is None or _executor_args == executor_args
         _executor_args = executor_args
